@@ -190,6 +190,8 @@ pub trait Gen {
     fn jump(&mut self) -> bool;
     fn long_jump(&mut self) -> bool;
     fn clone_box(&self) -> Box<dyn Gen>;
+    /// `Clone::clone_from(self, src)`; false if `src` is of another type
+    fn clone_from_dyn(&mut self, src: &dyn Gen) -> bool;
     /// `None` if the type has no `PartialEq` (or the other generator is of another type)
     fn eq_dyn(&self, other: &dyn Gen) -> Option<bool>;
     fn bincode(&self) -> Option<Vec<u8>>;
@@ -285,6 +287,12 @@ macro_rules! table {
                 fn jump(&mut self) -> bool { opt_jump!($j, self, jump) }
                 fn long_jump(&mut self) -> bool { opt_jump!($j, self, long_jump) }
                 fn clone_box(&self) -> Box<dyn Gen> { Box::new(W(self.0.clone())) }
+                fn clone_from_dyn(&mut self, src: &dyn Gen) -> bool {
+                    match src.as_any().downcast_ref::<W<$T>>() {
+                        Some(s) => { self.0.clone_from(&s.0); true }
+                        None => false,
+                    }
+                }
                 fn eq_dyn(&self, other: &dyn Gen) -> Option<bool> { opt_eq!($e, $T, self, other) }
                 fn bincode(&self) -> Option<Vec<u8>> { opt_ser!($s, self).0 }
                 fn json(&self) -> Option<String> { opt_ser!($s, self).1 }
@@ -465,6 +473,16 @@ impl<F: Fn() -> u64 + Send + Sync + Clone + 'static> Gen for JitterGen<F> {
     }
     fn clone_box(&self) -> Box<dyn Gen> {
         Box::new(JitterGen { rng: self.rng.clone(), timer: self.timer.clone() })
+    }
+    fn clone_from_dyn(&mut self, src: &dyn Gen) -> bool {
+        match src.as_any().downcast_ref::<JitterGen<F>>() {
+            Some(s) => {
+                self.rng.clone_from(&s.rng);
+                self.timer = s.timer.clone();
+                true
+            }
+            None => false,
+        }
     }
     fn eq_dyn(&self, _other: &dyn Gen) -> Option<bool> {
         None
